@@ -279,7 +279,7 @@ class Type:
             if self != T:
                 raise TypeMatchException('Unable to match %s with %s' % (self, T))
         elif self.is_tconst():
-            if (not T.is_tconst()) or T.name != self.name:
+            if (not T.is_tconst()) or T.name != self.name or len(T.args) != len(self.args):
                 raise TypeMatchException('Unable to match %s with %s' % (self, T))
             else:
                 for arg, argT in zip(self.args, T.args):
